@@ -146,6 +146,55 @@ def sequential(ctx):
         if box.get('first') != 'ok' or box.get('second') != 'refused':
             ctx.clause_fail('later_thread_refused', {'order': key, 'result': dict(box)},
                             detail='a second thread creating a store after the first thread was not refused')
+    # a failing construction attempt by the owning thread (after it has created a store) must not release the claim
+    import tempfile as _tf
+    from pathlib import Path as _P
+
+    tmpd = _P(_tf.mkdtemp(prefix='aeicverif_c20_'))
+    try:
+        (tmpd / 'garbage.nc').write_bytes(b'this is not a NetCDF file')
+        for kind in ('missing_path', 'not_netcdf', 'bad_arguments'):
+            for close_first in (False, True):
+                TrajectoryStore.active_in_thread = None
+                box = {}
+                started, release = threading.Event(), threading.Event()
+
+                def owner():
+                    ts = attempt(box, 'first')
+                    if close_first and ts is not None:
+                        ts.close()
+                    try:
+                        if kind == 'missing_path':
+                            TrajectoryStore.open(base_file=tmpd / 'does-not-exist.nc')
+                        elif kind == 'not_netcdf':
+                            TrajectoryStore.open(base_file=tmpd / 'garbage.nc')
+                        else:
+                            TrajectoryStore.open(base_file=tmpd / 'x.nc', title='not allowed in READ mode')
+                        box['failing'] = 'unexpectedly ok'
+                    except Exception as e:  # noqa: BLE001
+                        box['failing'] = 'raised:' + type(e).__name__
+                    started.set()
+                    release.wait(10.0)
+
+                t1 = threading.Thread(target=owner)
+                t1.start()
+                started.wait(10.0)
+                t2 = threading.Thread(target=lambda: attempt(box, 'second'))
+                t2.start()
+                t2.join()
+                release.set()
+                t1.join()
+                key = f'failed_attempt:{kind}:{"closed" if close_first else "open"}'
+                out[key] = dict(box)
+                ctx.case('sequential:' + key, nontrivial=True, sample={'order': key, 'result': dict(box)})
+                if box.get('first') == 'ok' and box.get('second') != 'refused':
+                    ctx.clause_fail('later_thread_refused', {'order': key, 'result': dict(box)},
+                                    detail=f'after the owning thread created a store and then made a failing construction attempt '
+                                           f'({kind}), another thread was not refused')
+    finally:
+        import shutil as _sh
+
+        _sh.rmtree(tmpd, ignore_errors=True)
     # same thread again
     TrajectoryStore.active_in_thread = None
     box = {}
